@@ -101,6 +101,11 @@ def run(ctx):
         pool = [rng.uniform(-5, 5) for _ in range(rng.randint(1, 4))] + rng.sample(SPECIAL, 3)
         if rng.random() < 0.3:
             pool = [float(rng.randint(0, 2)) for _ in range(3)]
+        elif rng.random() < 0.2:
+            # small signed integers: -1.0 and -2.0 are different costs with the same hash (CPython), 0.0 and -0.0 equal
+            # costs - a verdict depends on the values only
+            pool = [-1.0, -2.0, float(rng.randint(-3, 1))]
+            m = rng.randint(1, 3)
         p, q = gen_vec_pair(rng, m, pool)
         mp, mq = rng.choice(MARKERS), rng.choice(MARKERS)
         if rng.random() < 0.5:
